@@ -236,6 +236,10 @@ def route_to_coq(c):
         return None
 
 
+def coq_nats(out, name):
+    return [int(m.split("%")[0]) for m in vlib.parse_coq_list(out, name)]
+
+
 HEAD = ("From Coq Require Import List NArith ZArith.\nImport ListNotations.\n"
         "From GMQ Require Import Route.Value Route.Cfg Route.Exchange Route.gen.RouteGen Run.RouteRun.\nOpen Scope N_scope.\n")
 
@@ -251,8 +255,8 @@ def eval_routes(cases, tag):
     CH = 1200
     for s in range(0, len(terms), CH):
         text = HEAD + "Definition cases : list rt_case := [\n%s\n].\nDefinition M := Eval vm_compute in rt_mismatches cases.\nPrint M.\n" % ";\n".join(terms[s:s + CH])
-        for m in vlib.parse_coq_list(vlib.coq_eval(tag, text), "M"):
-            bad.append(idx[s + int(m)])
+        for m in coq_nats(vlib.coq_eval(tag, text), "M"):
+            bad.append(idx[s + m])
     return sorted(bad)
 
 
@@ -266,8 +270,8 @@ def eval_topics(pairs, tag):
     CH = 1500
     for s in range(0, len(terms), CH):
         text = HEAD + "Definition cases : list (bytes * bytes * N) := [\n%s\n].\nDefinition M := Eval vm_compute in tp_mismatches cases.\nPrint M.\n" % ";\n".join(terms[s:s + CH])
-        for m in vlib.parse_coq_list(vlib.coq_eval(tag, text), "M"):
-            bad.append(idx[s + int(m)])
+        for m in coq_nats(vlib.coq_eval(tag, text), "M"):
+            bad.append(idx[s + m])
     return sorted(bad)
 
 
@@ -276,7 +280,7 @@ def eval_exhaustive(rows, pn, kn, tag):
     alpha = "[" + "; ".join(cb(a.encode()) for a in ALPHA) + "]"
     exp = "; ".join("None" if r in ("E", "P") else "Some 0x%s" % r for r in rows)
     text = HEAD + "Definition M := Eval vm_compute in ex_mismatches %s %s %d %d [%s].\nPrint M.\n" % (alpha, alpha, pn, kn, exp)
-    bad = [int(m) for m in vlib.parse_coq_list(vlib.coq_eval(tag, text), "M")]
+    bad = coq_nats(vlib.coq_eval(tag, text), "M")
     return sorted(set(bad + [i for i, r in enumerate(rows) if r == "P"]))
 
 
@@ -289,6 +293,186 @@ def lists_upto(alpha, n):
     for l in range(n + 1):
         out += of_len(l)
     return out
+
+
+# ------------------------------------------------------------------ broker level (server/vhost.go, queueMethods.go, channel.go)
+# Scripts for harness/cmd/broker (the broker-level driver: real server in-process, raw frame client).
+# Only the routing-relevant observations are used: basic.return frames and which ready lists gained the message.
+TYPE_ID = {"direct": 1, "fanout": 2, "topic": 3}
+B_KEYS = ["k", "a", "a.b", "b", "q1", "q2"]
+B_PATS = ["#", "*", "a.*", "*.b", "a.#", "#.b", "a.b", "k"]
+
+
+def gen_broker_script(rng):
+    """-> list of abstract steps: ("XD", name, type) ("QD", q) ("QB"/"QU", q, ex, key, args) ("QDEL", q) ("PUB", ex, key, mandatory)"""
+    steps = []
+    exs = {}
+    for nm, ty in (("ed", "direct"), ("ef", "fanout"), ("et", "topic")):
+        if rng.random() < 0.8:
+            steps.append(("XD", nm, ty)); exs[nm] = ty
+    queues = []
+    made = []
+    for _ in range(rng.randint(4, 14)):
+        r = rng.random()
+        if r < 0.22 or not queues:
+            q = rng.choice(["q1", "q2", "q3"])
+            steps.append(("QD", q))
+            if q not in queues: queues.append(q)
+        elif r < 0.50 and exs:
+            ex = rng.choice(sorted(exs))
+            key = rng.choice(B_PATS if exs[ex] == "topic" else B_KEYS)
+            args = rng.choice([[], [], [("h1", "v")], [("x-match", "any")]])
+            b = (rng.choice(queues), ex, key, args)
+            made.append(b); steps.append(("QB",) + b)
+        elif r < 0.58 and made:
+            steps.append(("QU",) + rng.choice(made))
+        elif r < 0.63:
+            q = rng.choice(queues)
+            steps.append((rng.choice(["QU", "QB"]), q, "", q, []))     # the default exchange: must be refused
+        elif r < 0.70 and len(queues) > 1:
+            q = rng.choice(queues)
+            steps.append(("QDEL", q)); queues.remove(q)
+        else:
+            ex = rng.choice(sorted(exs) + ["", ""])
+            key = rng.choice(["q1", "q2", "q3", "nope"]) if ex == "" else rng.choice(B_KEYS + ["a.a.b", "x"])
+            steps.append(("PUB", ex, key, rng.random() < 0.6))
+    # always end by publishing to every declared queue through the default exchange, and to a missing one
+    for q in ["q1", "q2", "q3"]:
+        steps.append(("PUB", "", q, True))
+    return steps
+
+
+def broker_ops(steps):
+    """abstract steps -> op lines of harness/cmd/broker; returns (ops, index of the op line of each step)"""
+    d = lambda x: x if x else "-"
+    ops, at, ch, uid = ["OPEN 1", "CH 1 1"], [], 1, 0
+    for st in steps:
+        if st[0] == "XD":
+            ops.append("XD 1 %d %s %s 0 0 0 0 0" % (ch, st[1], st[2]))
+        elif st[0] == "QD":
+            ops.append("QD 1 %d %s 0 0 0 0 0" % (ch, st[1]))
+        elif st[0] in ("QB", "QU"):
+            args = ",".join("%s=%s" % kv for kv in st[4]) or "-"
+            ops.append("%s 1 %d %s %s %s %s%s" % (st[0], ch, st[1], d(st[2]), d(st[3]), args, " 0" if st[0] == "QB" else ""))
+        elif st[0] == "QDEL":
+            ops.append("QDEL 1 %d %s 0 0 0" % (ch, st[1]))
+        elif st[0] == "PUB":
+            uid += 1
+            ops.append("PUB 1 %d %s %s %d 0 0 u%d 3" % (ch, d(st[1]), d(st[2]), 1 if st[3] else 0, uid))
+        at.append(len(ops) - 1)
+        if st[0] in ("QB", "QU") and st[2] == "":
+            ch += 1                              # the broker closes the channel (403): carry on on a fresh one
+            ops.append("CH 1 %d" % ch)
+    return ops, at
+
+
+def run_broker_scripts(bexe, scripts):
+    outs = []
+    for steps in scripts:
+        ops, at = broker_ops(steps)
+        o = json.loads(vlib.harness(bexe, ["replay", "-rabbit=true", "-engine", "buntdb"], input="\n".join(ops) + "\n", timeout=120))
+        obs, uid = [], 0
+        for st, i in zip(steps, at):
+            if i >= len(o["steps"]):
+                obs.append(None); continue
+            r = o["steps"][i]
+            if st[0] != "PUB":
+                obs.append(dict(frames=r["frames"], note=r.get("note")))
+                continue
+            uid += 1
+            pushed = []
+            for l in r["snap"]:
+                if l.startswith("queue "):
+                    f = l.split()
+                    ready = l[l.index("ready=[") + 7:l.index("]", l.index("ready=["))].split()
+                    pushed += [f[1]] * ready.count("u%d" % uid)
+            obs.append(dict(returned=any(":basic.return(" in fr for fr in r["frames"]), pushed=sorted(pushed), note=r.get("note")))
+        outs.append(obs)
+    return outs
+
+
+def judge_broker(steps, obs):
+    """the AMQP rules on the abstract state -> (index of first bad step, why) or None"""
+    queues, bound = set(), set()
+    exs = {"": "direct"}
+    for i, (st, ob) in enumerate(zip(steps, obs)):
+        if ob is None:
+            return i, "the broker stopped answering"
+        if st[0] == "XD":
+            exs.setdefault(st[1], st[2])
+        elif st[0] == "QD":
+            queues.add(st[1])
+        elif st[0] in ("QB", "QU"):
+            _, q, ex, key, args = st
+            if ex != "" and ex in exs and q in queues:       # the default exchange accepts neither bind nor unbind
+                b = (q, ex, key, tuple(args))
+                (bound.add if st[0] == "QB" else bound.discard)(b)
+        elif st[0] == "QDEL":
+            queues.discard(st[1]); bound = {b for b in bound if b[0] != st[1]}
+        elif st[0] == "PUB":
+            _, ex, key, mand = st
+            if ex == "":
+                want = {q for q in queues if q == key}        # default exchange: by queue name
+            elif ex not in exs:
+                want = set()
+            else:
+                ty = exs[ex]
+                want = {b[0] for b in bound if b[1] == ex and (ty == "fanout" or (ty == "direct" and b[2] == key) or
+                                                               (ty == "topic" and spec_topic(b[2].encode(), key.encode())))}
+            if ob["pushed"] != sorted(want):
+                return i, "publish exchange=%r routing-key=%r placed in %s, AMQP rules give %s (each once)" % (ex, key, ob["pushed"], sorted(want))
+            if ob["returned"] != (mand and not want):
+                return i, "publish exchange=%r routing-key=%r mandatory=%s matched %s: returned=%s" % (ex, key, mand, sorted(want), ob["returned"])
+    return None
+
+
+def broker_to_coq(steps, obs):
+    out = []
+    for st, ob in zip(steps, obs):
+        if ob is None:
+            break
+        b = lambda x: cb(x.encode())
+        if st[0] == "XD":
+            out.append("BOp (TDeclareExchange %s %d)" % (b(st[1]), TYPE_ID[st[2]]))
+        elif st[0] == "QD":
+            out.append("BOp (TDeclareQueue %s)" % b(st[1]))
+        elif st[0] in ("QB", "QU"):
+            args = "(Some [" + "; ".join("(%s, VStr %s)" % (b(k), b(v)) for k, v in sorted(st[4])) + "])"
+            out.append("BOp (%s %s %s %s %s)" % ("TBind" if st[0] == "QB" else "TUnbind", b(st[1]), b(st[2]), b(st[3]), args))
+        elif st[0] == "QDEL":
+            out.append("BOp (TDeleteQueue %s)" % b(st[1]))
+        else:
+            out.append("BPub {| m_exchange := %s; m_key := %s; m_headers := None; m_mandatory := %s |} %s [%s]" % (
+                b(st[1]), b(st[2]), "true" if st[3] else "false", "true" if ob["returned"] else "false",
+                "; ".join(b(q) for q in ob["pushed"])))
+    return "[" + ";\n  ".join(out) + "]"
+
+
+def eval_broker(scripts, outs, tag):
+    text = HEAD + "Definition scripts : list (list br_step) := [\n%s\n].\nDefinition M := Eval vm_compute in br_mismatches scripts.\nPrint M.\n" % ";\n".join(
+        broker_to_coq(s, o) for s, o in zip(scripts, outs))
+    out = vlib.coq_eval(tag, text)
+    import re
+    m = re.search(r"M\s*=\s*(.*?)\n\s*:\s", out, re.S)
+    if not m:
+        raise vlib.Infra("cannot find M in coq output:\n" + out[-1500:])
+    body = re.sub(r"\s+", " ", m.group(1)).replace("%nat", "")
+    inner = re.findall(r"\[([^\[\]]*)\]", body[1:-1] if body.startswith("[") else body)
+    return [[int(x) for x in i.split(";") if x.strip()] for i in inner]
+
+
+def shrink_broker(bexe, steps):
+    def bad(s):
+        return judge_broker(s, run_broker_scripts(bexe, [s])[0]) is not None
+    changed = True
+    while changed:
+        changed = False
+        for i in range(len(steps)):
+            cand = steps[:i] + steps[i + 1:]
+            if cand and bad(cand):
+                steps = cand; changed = True
+                break
+    return steps
 
 
 # ------------------------------------------------------------------ the check
@@ -414,6 +598,32 @@ def run(res):
         bad_pairs = eval_topics(pairs, "C08t")
         bad_routes = eval_routes(routes, "C08r")
 
+    # ---- broker level: scripts against the running broker (default binding, default-exchange guards, publish decision)
+    import random
+    rng = random.Random(res.seed)
+    scripts = [[("QD", "q1"), ("PUB", "", "q1", True), ("QU", "q1", "", "q1", []), ("PUB", "", "q1", True)],
+               [("XD", "ed", "direct"), ("QD", "q1"), ("QD", "q2"), ("QB", "q1", "ed", "k", []), ("QB", "q2", "ed", "k", []),
+                ("QB", "q2", "ed", "k", []), ("PUB", "ed", "k", True), ("PUB", "ed", "x", True), ("PUB", "ed", "x", False),
+                ("QDEL", "q2"), ("PUB", "ed", "k", True), ("PUB", "", "q2", True)]]
+    scripts += [gen_broker_script(rng) for _ in range(60 if quick else 600)]
+    bexe, berr = vlib.build_harness("broker")
+    b_outs, b_bad_model, b_judged = None, None, []
+    if bexe is None:
+        res.notes.append("broker-level harness (harness/cmd/broker) does not build; broker-level scripts skipped: " + berr[-300:])
+    else:
+        try:
+            b_outs = run_broker_scripts(bexe, scripts)
+        except vlib.Infra as e:
+            res.notes.append("broker-level scripts could not be run: %s" % str(e)[-300:])
+    if b_outs is not None:
+        for si, (st, ob) in enumerate(zip(scripts, b_outs)):
+            j = judge_broker(st, ob)
+            if j:
+                b_judged.append((si, j[0], j[1]))
+        if model_ok:
+            mm = eval_broker(scripts, b_outs, "C08b")
+            b_bad_model = [(si, m) for si, m in enumerate(mm) if m]
+
     # ---- judge every case with the executable statement (cheap; also finds the known finding)
     verdicts = {"ok": 0, "skip": 0, "F51": 0, "bad": 0}
     judged_bad = []
@@ -483,6 +693,13 @@ def run(res):
     nbad = (len(bad_rows) + len(bad_pairs) + len(bad_routes)) if model_ok else 0
     res.cov["traces_validated_against_impl"] = (len(row_res) + len(pairs) + len(routes) - nbad) if model_ok else 0
     res.cov["exhaustive"] = False
+    if b_outs is not None:
+        npub = sum(1 for st in scripts for x in st if x[0] == "PUB")
+        res.cov["broker_level"] = dict(scripts=len(scripts), steps=sum(len(x) for x in scripts), publishes=npub,
+                                       model_disagreements=len(b_bad_model or []), judged_bad=len(b_judged),
+                                       sample=broker_ops(scripts[2])[0])
+        res.cov["evaluations"] += sum(len(x) for x in scripts)
+        res.cov["traces_validated_against_impl"] += (len(scripts) - len(b_bad_model or [])) if model_ok else 0
 
     # ---- known finding F51: replay its witness on the real code
     f51 = [c for c in routes[:n_corpus_routes] if judge_route(c)[0] == "F51"]
@@ -490,8 +707,8 @@ def run(res):
         res.known_finding("F51", "a message without headers table is not routed to a headers binding whose argument table has nothing to match (x-match all alone), although an empty headers table is")
 
     # ---- decide
-    corr_broken = model_ok and (bad_rows or bad_pairs or bad_routes)
-    if pr["ok"] and model_ok and not corr_broken and not judged_bad:
+    corr_broken = model_ok and (bad_rows or bad_pairs or bad_routes or b_bad_model)
+    if pr["ok"] and model_ok and not corr_broken and not judged_bad and not b_judged:
         return
     what = []
     if not pr["ok"]:
@@ -502,8 +719,10 @@ def run(res):
         first = ("X|%d|%s|%s" % (bad_rows[0], pats[bad_rows[0]].hex(), row_res[bad_rows[0]]) if bad_rows else
                  "T|%s|%s|%s" % (pairs[bad_pairs[0]][0].hex(), pairs[bad_pairs[0]][1].hex(), pairs[bad_pairs[0]][2]) if bad_pairs else
                  "R|" + json.dumps(routes[bad_routes[0]]))
-        what.append("correspondence routing model/implementation differs on %d exhaustive rows, %d pairs, %d route cases (first: %s)"
-                    % (len(bad_rows), len(bad_pairs), len(bad_routes), first[:600]))
+        if b_bad_model and not (bad_rows or bad_pairs or bad_routes):
+            first = "broker script %s, steps %s" % (broker_ops(scripts[b_bad_model[0][0]])[0], b_bad_model[0][1])
+        what.append("correspondence routing model/implementation differs on %d exhaustive rows, %d pairs, %d route cases, %d broker scripts (first: %s)"
+                    % (len(bad_rows), len(bad_pairs), len(bad_routes), len(b_bad_model or []), first[:600]))
     if judged_bad and pr["ok"] and not corr_broken:
         what.append("the implementation agrees with the proved model but the python judge objects (%d cases): the judge and the Coq spec differ" % len(judged_bad))
     # failing input: a route case first (it carries binding set + message), then topic pairs
@@ -516,6 +735,17 @@ def run(res):
         res.violation(dict(kind="route", case={k: v for k, v in c.items() if k != "out"}, readable=describe_route(c), judge=why, broken=what,
                            translator=gen_status, replay_cmd="echo '<case json>' | harness/bin/routing replay-route"),
                       True, "routing deviates from the AMQP rules: %s; %s" % (why, describe_route(c)))
+    elif b_judged:
+        si = b_judged[0][0]
+        st = shrink_broker(bexe, scripts[si])
+        ob = run_broker_scripts(bexe, [st])[0]
+        j = judge_broker(st, ob)
+        res.violation(dict(kind="broker-script", steps=[list(x) for x in st], ops=broker_ops(st)[0], observed=ob, judge=j[1] if j else None,
+                           broken=what, translator=gen_status,
+                           readable=dict(operations=[" ".join(str(y) for y in x) for x in st[:(j[0] if j else len(st))]],
+                                         message=" ".join(str(y) for y in st[j[0]]) if j else None),
+                           replay_cmd="printf '%s\\n' ... | harness/bin/broker replay -rabbit=true -engine buntdb"),
+                      True, "broker routes against the AMQP rules: %s; script: %s" % (j[1] if j else "?", [" ".join(str(y) for y in x) for x in st]))
     elif tb or row_fail:
         if row_fail:
             p, k, why = row_fail
@@ -546,6 +776,17 @@ def replay(path):
         print(json.dumps(describe_route(c), indent=1))
         print("AMQP rules verdict:", v, why)
         return 1 if v == "bad" else 0
+    if r.get("kind") == "broker-script":
+        bexe, berr = vlib.build_harness("broker")
+        if bexe is None:
+            print(berr); return 2
+        st = [tuple(x[:4]) + ([tuple(kv) for kv in x[4]],) if x[0] in ("QB", "QU") else tuple(x) for x in r["steps"]]
+        ob = run_broker_scripts(bexe, [st])[0]
+        for a, b in zip(st, ob):
+            print(" ".join(str(y) for y in a), "->", b)
+        j = judge_broker(st, ob)
+        print("AMQP rules verdict:", "bad: step %d: %s" % j if j else "ok")
+        return 1 if j else 0
     if r.get("kind") == "topic":
         out = vlib.harness(exe, ["replay-topic", r["pattern_hex"], r["key_hex"]]).strip()
         p, k = unhex(r["pattern_hex"]), unhex(r["key_hex"])
